@@ -123,6 +123,9 @@ class C02(Check):
             cfgs.append(Config('convergence_L%d' % L, self.convergence, {'L': L}, nonlinear=True, witness_every=2))
         for cb in (False, True):
             cfgs.append(Config('driver_cb%d' % cb, self.driver, {'cb': cb, 'maxit': 3 if tier == 'quick' else 4}, nonlinear=True, split=3))
+            # the covariance handed over as an INTEGER array (hand-typed values): the iterates are still reals
+            cfgs.append(Config('driver_int_covariance_cb%d' % cb, self.driver, {'cb': cb, 'maxit': 3, 'S_kind': 'int'},
+                               nonlinear=True, split=3))
         cfgs.append(Config('front_end', self.front_end, {}))
         return cfgs
 
@@ -364,7 +367,7 @@ class C02(Check):
         c.prove('stopping_rule_is_boyd_residual_test', conj(f))
 
     # 7
-    def driver(self, c, cb, maxit):
+    def driver(self, c, cb, maxit, S_kind='real'):
         Rp = self.R
         sol = Rp.solver
         N, W = 1, 1
@@ -381,10 +384,17 @@ class C02(Check):
             rhos.append(((rho, rp, tp, rd, td), new))
             return new
         args = self._args(c, N, W, 0.1, rho=rho0, maxit=mi, rho_update=rho_update if cb else None)
-        S = stubs.sym_symmetric(c, 'S', 1)
+        c.notes.update({'kind': 'driver', 'maxit': int(mi), 'cb': cb, 'S_kind': S_kind})
+        S = stubs.sym_symmetric(c, 'S', 1) if S_kind == 'real' else stubs.const_array([[2]], dtype=np.int64)      # concrete entries: only the dtype matters here
         xs = []
 
         def fake_x(a, u, z, cov):
+            if np.asarray(u).dtype.kind != 'f' or np.asarray(z).dtype.kind != 'f':
+                # the iterates are real vectors whatever the dtype of the covariance: an integer state array
+                # truncates every update (decided here, before the truncated terms reach the solver)
+                c.prove('driver_matches_reference_iteration', False,
+                        detail={'state_dtypes': [repr(np.asarray(u).dtype), repr(np.asarray(z).dtype)]})
+                raise core.PathAbort()
             v = stubs.sym_array(c, 'xs%d' % len(xs), (L,), owner='lib')
             xs.append(((getattr(a, 'rho', a), u, z, cov), v))     # the argument bundle, or rho itself
             return v
@@ -407,7 +417,7 @@ class C02(Check):
         if not ok:
             return
         M = int(mi)
-        c.notes.update({'kind': 'driver', 'maxit': M, 'cb': cb})
+        c.notes.update({'kind': 'driver', 'maxit': M, 'cb': cb, 'S_kind': S_kind})
         # reference driver
         f = []
         u = [0.0] * L
